@@ -1,6 +1,7 @@
 import BddProofs.Ite
 import BddProofs.IteTotal
 import BddProofs.Init
+import BddProofs.DriverSem
 /-! # C02 — if-then-else computes (f ∧ g) ∨ (¬f ∧ h) for every triple
 
 `ITE φf φg φh = fun e => if φf e then φg e else φh e`.  `Good s` is the invariant of every reachable
@@ -54,8 +55,21 @@ example : Good s4 ∧ Valid s4.nodes Ref.one (fun _ => true) ∧ Valid s4.nodes 
     applyIte 3 s4 Ref.one Ref.zero Ref.one = .ok (s4, Ref.zero) :=
   ⟨s4_good, Valid.one, Valid.zero, by unfold applyIte; simp [isOne]⟩
 
+/-- the same statement about what the model driver really runs (`exec`, `BddModel/Driver.lean`): if the
+request `ite a b c` is accepted and returns the handle `h`, then `h` is live in the new state and denotes
+the ITE of the functions `a`, `b`, `c` denoted — with no hypothesis about the handles: liveness is
+discharged from the driver's run-time check.  (`exec_handle_sem` is the same for every handle-producing
+request: connectives, folds, cube / clause, the substitutions, compose, constrain, restrict, expressions.) -/
+theorem C02_driver_reply {fuel : Nat} {s s' : St} {a b c h : Ref} (hg : Good s)
+    (hx : exec fuel s (.ite a b c) = .handle (.ok (s', h))) :
+    Good s' ∧ Sub s.nodes s'.nodes ∧ ∃ φa φb φc, Valid s.nodes a φa ∧ Valid s.nodes b φb ∧ Valid s.nodes c φc ∧
+      Valid s'.nodes h (ITE φa φb φc) := by
+  obtain ⟨g', sub, ψ, vψ, φa, φb, φc, va, vb, vc, e⟩ := exec_handle_sem hg hx
+  exact ⟨g', sub, φa, φb, φc, va, vb, vc, e ▸ vψ⟩
+
 end P
 #print axioms P.C02_ite_sound
 #print axioms P.C02_ite_total
 #print axioms P.C02_ite_formula
 #print axioms P.C02_shortcut_F0F
+#print axioms P.C02_driver_reply
